@@ -132,7 +132,7 @@ impl Corpus for Basic {
         let p = flow.process::<Node>();
         let (inp, s) = p.sim_input::<i64, TotalOrder, ExactlyOnce>();
         let out = flows::c31_basic(s).sim_output();
-        (flow.sim().compiled(), BasicPorts { inp: leak(inp), out })
+        (super::util::compile_locked(|| flow.sim().compiled()), BasicPorts { inp: leak(inp), out })
     }
 
     async fn drive(p: BasicPorts, s: &Self::Script) -> Self::Trace {
@@ -227,7 +227,7 @@ impl Corpus for Multi {
         let p = flow.process::<Node>();
         let (inp, s) = p.sim_input::<i64, TotalOrder, ExactlyOnce>();
         let out = flows::c31_multi(s).sim_output();
-        (flow.sim().compiled(), MultiPorts { inp: leak(inp), out })
+        (super::util::compile_locked(|| flow.sim().compiled()), MultiPorts { inp: leak(inp), out })
     }
 
     async fn drive(p: MultiPorts, s: &Self::Script) -> Self::Trace {
@@ -327,7 +327,7 @@ impl Corpus for Atomic {
         let acks = acks.sim_output();
         let out = out.sim_output();
         (
-            flow.sim().compiled(),
+            super::util::compile_locked(|| flow.sim().compiled()),
             AtomicPorts {
                 inp: leak(inp),
                 acks,
@@ -434,7 +434,7 @@ impl Corpus for Keyed {
         let p = flow.process::<Node>();
         let (inp, s) = p.sim_input::<(i64, i64), TotalOrder, ExactlyOnce>();
         let out = flows::c31_keyed(s).sim_output();
-        (flow.sim().compiled(), KeyedPorts { inp: leak(inp), out })
+        (super::util::compile_locked(|| flow.sim().compiled()), KeyedPorts { inp: leak(inp), out })
     }
 
     async fn drive(p: KeyedPorts, s: &Self::Script) -> Self::Trace {
@@ -564,7 +564,7 @@ impl Corpus for Buffer {
         let (lead, l) = p.sim_input::<i64, TotalOrder, ExactlyOnce>();
         let out = flows::c31_buffer(s, l).sim_output();
         (
-            flow.sim().compiled(),
+            super::util::compile_locked(|| flow.sim().compiled()),
             BufferPorts {
                 pay: leak(pay),
                 lead: leak(lead),
